@@ -373,10 +373,10 @@ SPECS["C01"] = {
     "jobs": [
         {"pkg": "./pkg/statsd", "harness": "pkg/statsd", "mode": "math",
          "entries": {"quick": ["VerifC01_Ingest1", "VerifC01_Ingest2", "VerifC01_StepCounters", "VerifC01_StepTimers", "VerifC01_StepSets",
-                               "VerifC01_Pipeline_1_2", "VerifC01_Pipeline_2_3", "VerifC01_Pipeline_3_3", "VerifC01_Twin"],
+                               "VerifC01_Pipeline_1_2", "VerifC01_Pipeline_2_3", "VerifC01_Pipeline_3_3", "VerifC01_Full_1_1_2", "VerifC01_Full_2_2_3", "VerifC01_Twin"],
                      "thorough": ["VerifC01_Ingest1", "VerifC01_Ingest2", "VerifC01_Ingest3", "VerifC01_StepCounters", "VerifC01_StepTimers", "VerifC01_StepSets",
-                                  "VerifC01_StepTimers2", "VerifC01_StepSets2", "VerifC01_Pipeline_1_2", "VerifC01_Pipeline_2_3", "VerifC01_Pipeline_3_3", "VerifC01_Pipeline_2_4", "VerifC01_Twin"]},
-         "reach": {"VerifC01_Ingest2": ["ingested"], "VerifC01_StepCounters": ["received", "flushed"], "VerifC01_StepTimers": ["received", "flushed"], "VerifC01_Pipeline_2_3": ["dispatched", "flush"]},
+                                  "VerifC01_StepTimers2", "VerifC01_StepSets2", "VerifC01_Pipeline_1_2", "VerifC01_Pipeline_2_3", "VerifC01_Pipeline_3_3", "VerifC01_Pipeline_2_4", "VerifC01_Full_1_1_2", "VerifC01_Full_2_2_3", "VerifC01_Twin"]},
+         "reach": {"VerifC01_Full_2_2_3": ["datagram", "flush", "full-done"], "VerifC01_Ingest2": ["ingested"], "VerifC01_StepCounters": ["received", "flushed"], "VerifC01_StepTimers": ["received", "flushed"], "VerifC01_Pipeline_2_3": ["dispatched", "flush"]},
          "twin": {"VerifC01_Twin": True},
          "limits": {"quick": {"timeout": "900s"}, "thorough": {"timeout": "5400s"}}},
     ],
